@@ -30,6 +30,18 @@ CLAIMED = {
              "functional model cannot express aliasing). Modelled not verified: middleware/*.py.",
         technique="Coq proof (induction over header/mount/completion lists) + in-Coq differential correspondence",
     ),
+    "C17": dict(
+        text="Coq theorems about a model of WSGIWrapper: the body limit is exact for every segmentation of the body, "
+             "the environ (path split by root_path, CONTENT_*/HTTP_* with repeated headers comma-joined in order) for "
+             "every scope, pass-through of status/headers/chunks for eager and lazy start_response, close() exactly "
+             "once for every application shape. Tied to the code by differential execution through the real asyncio "
+             "and trio WSGI middleware (real executor threads) and a PEP 3333 oracle.",
+        design="7/C17",
+        note="Trusted: Coq kernel + vm_compute, harness/c17.py; thread pool plumbing is asyncio's/trio's; 'off the "
+             "event loop' is observed on the implementation only (thread identity). Modelled not verified: "
+             "app_wrappers.py (WSGIWrapper, _build_environ).",
+        technique="Coq proof (induction over message/header/step lists) + in-Coq differential correspondence",
+    ),
 }
 NOT_APPLICABLE = {}
 PENDING_REASON = "check not built yet in this session (planned: Coq model + proof + correspondence, see DESIGN.md section 7)"
